@@ -33,7 +33,7 @@ func generate(run *common.Run, n int) []*Case {
 }
 
 func (g *genCfg) genAny(id string) *Case {
-	switch x := g.rng.Intn(24); {
+	switch x := g.rng.Intn(26); {
 	case x < 8:
 		return g.genCall("s2h", id)
 	case x < 15:
@@ -52,6 +52,8 @@ func (g *genCfg) genAny(id string) *Case {
 		}
 	case x < 22:
 		return g.genSpreadViaFuncValue(id)
+	case x < 24:
+		return g.genCondLoop(id)
 	}
 	return g.genVarCase(id)
 }
@@ -218,6 +220,56 @@ func (g *genCfg) genSpreadViaFuncValue(id string) *Case {
 	}
 	if c.Args[0].T.Kind == KFunc && c.Args[0].Fn != nil {
 		c.Forms[0] = "decl"
+	}
+	return c
+}
+
+// genCondLoop: a host call with a bool result used as a condition — operand of && / || / !, if or for condition, or operand of
+// an assigned && / || — executed once per element of Seq in ONE frame (a loop), its result driven by its first argument, so
+// that true and false alternate. Functions (hp.F, function variables), methods, method values, variadic calls.
+func (g *genCfg) genCondLoop(id string) *Case {
+	r := g.rng
+	var c *Case
+	if r.Intn(3) == 0 {
+		c = &Case{ID: id, Dir: "meth", Method: "Is"}
+		c.Sig = funcType([]*TypeD{typeByID("bool"), typeByID("[]int")}, []*TypeD{typeByID("bool")}, true)
+		c.Recv = []string{"ptr", "ptr", "mvalue", "embedded", "val", "sptr", "sptrmv"}[r.Intn(7)]
+	} else {
+		ins := []*TypeD{typeByID("bool")}
+		for i := r.Intn(3); i > 0; i-- {
+			ins = append(ins, g.one("int", "string", "hp.Pt", "[]int", "interface{}", "hp.Color"))
+		}
+		variadic := r.Intn(2) == 0
+		if variadic {
+			ins = append(ins, typeByID("[]"+g.one("int", "string", "interface{}", "hp.Pt").ID))
+		}
+		c = g.call("s2h", id, funcType(ins, []*TypeD{typeByID("bool")}, variadic))
+		c.Body.Muts = nil
+		c.Body.Rets = []*Expr{{Op: []string{"p", "not"}[r.Intn(2)], I: 0}}
+		c.Callee = []string{"", "", "", "fnvar", "fntyped"}[r.Intn(5)]
+	}
+	c.Ctx = "condloop"
+	c.CondOp = []string{"and", "or", "not", "if", "for", "andassign", "orassign", "rhsand"}[r.Intn(8)]
+	g.genArgs(c)
+	for k, a := range c.Args {
+		if a.T.Kind == KFunc {
+			c.Args[k] = &Val{T: a.T, Nil: true}
+		}
+	}
+	c.Args[0], c.Forms[0] = &Val{T: typeByID("bool")}, "loopvar"
+	if c.Recv == "mvalue" || c.Recv == "sptrmv" {
+		for k := 1; k < len(c.Forms); k++ {
+			c.Forms[k] = "var" // constants through a method value of a variadic method: F07-3
+		}
+	}
+	// alternating results, both orders, at least one true followed by a false
+	n := 2 + r.Intn(5)
+	b := r.Intn(2) == 0
+	for i := 0; i < n; i++ {
+		c.Seq = append(c.Seq, b)
+		if r.Intn(4) != 0 {
+			b = !b
+		}
 	}
 	return c
 }
